@@ -75,9 +75,9 @@ def proof_step(pid, thorough=False):
     for blk in blocks:
         if blk.startswith("Axioms:"):
             for line in blk.splitlines()[1:]:
-                m = re.match(r"^(\S+)\s*:", line)
-                if m:
-                    axioms.add(m.group(1))
+                # an axiom's name starts a line; its type may follow on the same or on the next lines
+                if line and not line[0].isspace():
+                    axioms.add(line.split()[0].rstrip(":"))
     res["closed"] = closed
     res["axioms"] = sorted(axioms)
     bad = [a for a in axioms if a not in ALLOWED_AXIOMS]
